@@ -484,9 +484,13 @@ package parse
 //@   requires cond != nil
 //@   ensures result != nil
 
+// C01: integer literals. strconv.ParseInt with an explicit base does not accept a
+// base prefix, so a hexadecimal literal must be converted from the digits after
+// "0x" (a decimal literal from the whole token).
 //@ func (*tree).newValueNode
 //@   like exprFn
 //@   props C05 C18 C01
+//@   at call strconv.ParseInt#0 assert[hex-literal-converted-from-its-digits;C01] (arg1 == 16 ==> substr(arg0, tok.val, 2) && len(arg0) == len(tok.val) - 2) && (arg1 == 10 ==> arg0 == tok.val) && (arg1 == 10 || arg1 == 16)
 //@   measure rem(t), 4
 //@   nopanic
 //@   requires tokShape(tok) && (tok.typ == itemNull || tok.typ == itemBool || tok.typ == itemInteger || tok.typ == itemFloat || tok.typ == itemDollarIdent || tok.typ == itemString || tok.typ == itemIdent || tok.typ == itemLeftBracket)
